@@ -297,6 +297,9 @@ class ScriptBackend(TrialBackend):
         super().__init__(delete_checkpoints=delete_checkpoints)
         self.sym, self.mon = sym, mon
         self.eager = eager    # deterministic workers: K reports per poll, exit as soon as the final level is reported
+        self.exit_in_busy = False   # a job that has written its last report may exit between the poll and busy_trial_ids()
+        self.nfetch = 0             # number of polls (_all_trial_results calls) so far
+        self.exit_fetch = {}        # tid -> value of nfetch when its worker exited by itself (completed / failed)
         self.R, self.K, self.J, self.Z, self.P = R, K, J, Z, P
         self.max_fail = max_fail
         self.checkpointing = checkpointing
@@ -392,12 +395,14 @@ class ScriptBackend(TrialBackend):
             if e == "fail":
                 self.wst[t] = Status.failed
                 self.exited[t] = True
+                self.exit_fetch[t] = self.nfetch
                 self.nfail += 1
                 progress = True
                 self.sym.event("worker t%d fails" % t)
             elif e == "exit":
                 self.wst[t] = Status.completed
                 self.exited[t] = True
+                self.exit_fetch[t] = self.nfetch
                 progress = True
                 self.sym.event("worker t%d exits (completed)" % t)
         if progress or not self.in_progress():
@@ -482,6 +487,7 @@ class ScriptBackend(TrialBackend):
                        "trial %d is resumed but its checkpoint was deleted" % trial_id)
 
     def _all_trial_results(self, trial_ids):
+        self.nfetch += 1
         out = []
         for t in trial_ids:
             tr = self._trial_dict.get(t)
@@ -520,6 +526,17 @@ class ScriptBackend(TrialBackend):
             self.deleted_log.append((trial_id, self.mon.state.get(trial_id), self.mon.tuning_over))
 
     def busy_trial_ids(self):
+        if self.exit_in_busy:
+            # real workers do not wait for the tuner: a job whose script has written its last report may end right between
+            # the poll of this iteration and the question how many workers are busy
+            for t in sorted(t_ for t_, s_ in self.wst.items() if s_ == Status.in_progress):
+                if not self.exited.get(t) and self.level[t] >= self.final_level(t):
+                    if self.sym.choice("bexit_f%d_t%d" % (self.nfetch, t), 2) == 1:
+                        self.wst[t] = Status.completed
+                        self.exited[t] = True
+                        self.exit_fetch[t] = self.nfetch
+                        self.sym.event("worker t%d exits (completed) between poll and busy_trial_ids" % t)
+                        self.sym.goal("exit-between-poll-and-scheduling")
         return [(t, self.wst[t]) for t in self.in_progress()]
 
     def stdout(self, trial_id):
@@ -586,6 +603,9 @@ class LoopCallback(TunerCallback):
             return fin > n
         if kind == "evaluations":
             return self.fetched > n
+        if kind == "min_metric":
+            # a value below the threshold has been handed to the loop (NaN reports of diverged runs do not undo that)
+            return any(r.get("m") == r.get("m") and r.get("m") < 0.05 for _, r in self.fetched_list)
         raise AssertionError(kind)
 
     def on_loop_end(self):
